@@ -5,6 +5,7 @@ mod cfgspace;
 mod checks;
 mod common;
 mod interpose;
+mod sim;
 mod xs;
 
 use common::{Args, Coverage, Ctx, load_replay, machinery_error};
@@ -41,6 +42,10 @@ fn main() {
         ("C15", Some(r)) => checks::c15::replay(&ctx, &r["case"]),
         ("C18", None) => checks::c18::run(&ctx),
         ("C18", Some(r)) => checks::c18::replay(&ctx, &r["case"]),
+        ("SIMSMOKE", _) => {
+            checks::simsmoke::run();
+            std::process::exit(0);
+        }
         ("C05", None) => checks::cfgstate::run_c05(&ctx),
         ("C06", None) => checks::cfgstate::run_c06(&ctx),
         ("C07", None) => checks::cfgstate::run_c07a(&ctx),
